@@ -53,6 +53,10 @@ def documents(draw: Any, kind: str = 'function', fmt_family: str = 'markup', max
             out.append({'k': k, 'words': c.words(draw(st.integers(1, 3))), 'target': draw(st.sampled_from(['Engine', 'Engine', 'Engine.start'])) if k == 'xref' else None,
                         # no blank between this run and the one before it: markup inside a word, markup next to markup
                         'glue': bool(out) and (k != 'text' or out[-1]['k'] != 'text') and draw(st.integers(0, 3)) == 0})
+            # markup glued to a word that ends in a capital letter or a digit (HTTPB{S}, I{x}2C{y}): a capital before the tag letter
+            # is part of the word
+            if out[-1]['glue'] and k != 'text' and len(out) > 1 and out[-2]['k'] == 'text':
+                out[-1]['cap'] = draw(st.sampled_from(['', 'Z', 'AB', '9', 'E']))
         return out
 
     def para() -> Dict[str, Any]:
@@ -231,7 +235,7 @@ def _inline(runs: List[Dict[str, Any]], fmt: str) -> str:
             piece = {'text': w, 'em': '*%s*' % w, 'strong': '**%s**' % w, 'code': '``%s``' % w, 'xref': '`%s <%s>`' % (w, r.get('target'))}[k]
             # reST needs a boundary around inline markup: the escaped blank is one that leaves no trace
             sep = '\\ ' if r.get('glue') else ' '
-        text += (sep if i else '') + piece
+        text += (sep if i else '') + piece if not r.get('cap') else r['cap'] + ('' if fmt == 'epytext' else '\\ ') + piece
     return text
 
 
